@@ -12,7 +12,7 @@ open Spec
 theorem takeWhile_append_stop {p : Char → Bool} (w : List Char) (c : Char) (rest : List Char)
     (hw : ∀ x ∈ w, p x = true) (hc : p c = false) : (w ++ c :: rest).takeWhile p = w := by
   induction w with
-  | nil => simp [List.takeWhile_cons, hc]
+  | nil => simp [hc]
   | cons a w ih =>
     simp only [List.cons_append, List.takeWhile_cons, hw a (by simp), if_true]
     rw [ih (fun x hx => hw x (by simp [hx]))]
@@ -20,7 +20,7 @@ theorem takeWhile_append_stop {p : Char → Bool} (w : List Char) (c : Char) (re
 theorem dropWhile_append_stop {p : Char → Bool} (w : List Char) (c : Char) (rest : List Char)
     (hw : ∀ x ∈ w, p x = true) (hc : p c = false) : (w ++ c :: rest).dropWhile p = c :: rest := by
   induction w with
-  | nil => simp [List.dropWhile_cons, hc]
+  | nil => simp [hc]
   | cons a w ih =>
     simp only [List.cons_append, List.dropWhile_cons, hw a (by simp), if_true]
     exact ih (fun x hx => hw x (by simp [hx]))
